@@ -6,5 +6,5 @@ here="$(cd "$(dirname "${BASH_SOURCE[0]}")/.." && pwd)"
 wt="/tmp/tst_${name}_$$"
 git -C /repo worktree add -q "$wt" HEAD || exit 2
 git -C "$wt" apply "$here/seeded/$name/patch.diff" || { git -C /repo worktree remove --force "$wt"; exit 2; }
-(cd "$wt" && env -u PYNGUIN_VERIF PYTHONPATH="$wt/src" timeout 3000 /venv/bin/python -m pytest -q -p no:cacheprovider -p no:sugar --timeout=900 -x "$@" tests/test_generator.py 2>&1 | tail -3)
+(cd "$wt" && env -u PYNGUIN_VERIF PYTHONPATH="$wt/src" timeout 3000 /venv/bin/python -m pytest -q -p no:cacheprovider -p no:sugar --timeout=900 --deselect tests/testcase/execution/test_subprocesstestcaseexecutor.py::test_auxiliary_executor_survives_sut_code_run_while_unpickling_results "$@" tests/test_generator.py 2>&1 | tail -3)
 git -C /repo worktree remove --force "$wt"
